@@ -277,7 +277,7 @@ pub fn jenkins_hashlittle2(filename: &str, hash_bits: u32) -> (u64, u8) {
     // Calculate masks
     let (and_mask, or_mask) = if hash_bits < 64 {
         let and_mask = (1u64 << hash_bits) - 1;
-        let or_mask = 1u64 << (hash_bits - 1);
+        let or_mask = if hash_bits == 0 { 0 } else { 1u64 << (hash_bits - 1) };
         (and_mask, or_mask)
     } else {
         (0xFFFFFFFFFFFFFFFF, 0)
@@ -287,7 +287,10 @@ pub fn jenkins_hashlittle2(filename: &str, hash_bits: u32) -> (u64, u8) {
     let file_name_hash = (full_hash & and_mask) | or_mask;
 
     // Extract NameHash1
-    let name_hash1 = if hash_bits < 64 {
+    let name_hash1 = if hash_bits < 8 {
+        // degenerate table width: the whole hash is the top byte
+        (file_name_hash & 0xFF) as u8
+    } else if hash_bits < 64 {
         ((file_name_hash >> (hash_bits - 8)) & 0xFF) as u8
     } else {
         ((file_name_hash >> 56) & 0xFF) as u8
